@@ -190,6 +190,42 @@ def dump_sub(sn, point):
     return out
 
 
+class Inexact(Exception):
+    pass
+
+
+def inexact(expr):
+    """floating-point approximations (numerical roots inside an inverse Laplace transform) appear as Float atoms or as
+    rationals with a large power-of-ten denominator; such a model is approximate by construction and is not compared"""
+    try:
+        x = sp.sympify(getattr(expr, 'sympy', expr))
+        if x.atoms(sp.Float):
+            return True
+        for r in x.atoms(sp.Rational):
+            q0 = int(r.q)
+            if q0 >= 10**9:
+                q_ = q0
+                while q_ % 2 == 0:
+                    q_ //= 2
+                while q_ % 5 == 0:
+                    q_ //= 5
+                if q_ == 1:
+                    return True
+    except CaseTimeout:
+        raise
+    except Exception:
+        return False
+    return False
+
+
+def check_exact(model, which):
+    src = model.Voc if which == 'th' else model.Isc
+    imm = model.Z if which == 'th' else model.Y
+    parts = list(src.values()) if hasattr(src, 'values') else [src]
+    if any(inexact(v) for v in parts) or inexact(imm):
+        raise Inexact('model contains floating-point approximations (numerical inverse Laplace transform)')
+
+
 def mk(lines):
     c = Circuit()
     for line in lines:
@@ -316,11 +352,13 @@ def run_net(case, point):
 
     def thev():
         th = mk(lines).thevenin(p, m)
+        check_exact(th, 'th')
         models['th'] = th
         return rat(th.Voc(lcapy.s), point)
 
     def nort():
         nt = mk(lines).norton(p, m)
+        check_exact(nt, 'nt')
         models['nt'] = nt
         return rat(nt.Isc(lcapy.s), point)
     attempt(api, 'thVoc', thev, point, tm)
@@ -416,11 +454,13 @@ def run_oneport(case, point):
 
     def thev():
         th = build_tree(case['tree']).thevenin()
+        check_exact(th, 'th')
         models['th'] = th
         return rat(th.Voc(lcapy.s), point)
 
     def nort():
         nt = build_tree(case['tree']).norton()
+        check_exact(nt, 'nt')
         models['nt'] = nt
         return rat(nt.Isc(lcapy.s), point)
     attempt(api, 'thVoc', thev, point, tm)
